@@ -293,7 +293,9 @@ def exhaustive_negotiation(rec):
                 # an application parses (and edits the options of) a range and a media type now and then
                 check_parse_header(rec, tup[idx % L], idx)
                 check_parse_header(rec, CANDS[idx % len(CANDS)], idx // 3)
-            for mt in CANDS:
+            # quick: 3-range headers against a rotating half of the media types
+            mts = CANDS if (L < 3 or rec.tier != 'quick') else CANDS[idx % 2::2]
+            for mt in mts:
                 sp = check_quality(rec, mt, header)
                 if 'multi' in sp.info:
                     nontrivial = True
@@ -1091,17 +1093,20 @@ EX_CORE = [o for o in EX_OPS if o in (
 
 
 def exhaustive_histories(rec, world):
-    plans = [(EX_OPS, 2)] if rec.tier == 'quick' else [(EX_OPS, 2), (EX_CORE, 3)]
+    # (alphabet, depth, probes per sweep that also go through the four public paths; None = all)
+    plans = [(EX_OPS, 2, 4)] if rec.tier == 'quick' else [(EX_OPS, 2, None), (EX_CORE, 3, 4)]
     idx = 0
-    for alphabet, depth in plans:
+    for alphabet, depth, pps in plans:
         # shorter programs are prefixes of the longer ones (there is a sweep after every op)
         for ops in itertools.product(alphabet, repeat=depth):
             idx += 1
             if idx % rec.nshards != rec.shard:
                 continue
             k = idx % len(ERRSER_ACCEPTS)
+            # every probe goes through _resolve; with pps a rotating subset goes through the public paths as well
             h = History(rec, world, EX_INIT, 'application/json', EX_PROBES, public=True,
-                        errser_accept=ERRSER_ACCEPTS[k:] + ERRSER_ACCEPTS[:k])
+                        errser_accept=ERRSER_ACCEPTS[k:] + ERRSER_ACCEPTS[:k],
+                        public_per_sweep=pps)
             changed = h.run([list(o) for o in ops])
             rec.case(('hist', ops) if changed else None)
     rec.count('exh.histories', 1)
@@ -1180,6 +1185,14 @@ def random_histories(rec, world, rng, n):
 
 # --------------------------------------------------------------------------------------------
 
+def hostile_app_preamble(rec):
+    """Before anything is negotiated (nothing cached yet): an application that parses a few common values with
+    the public parse_header() and fills in defaults in the dict it got back.  Also run first by replay()."""
+    for k, text in enumerate(['text/plain', 'application/json', '*/*', 'text/plain;a=1', 'text/*', 'application/json',
+                              'text/html; charset=utf-8', '', 'text/plain ', 'msgpack', 'text/plain;a="1"', 'image/png']):
+        check_parse_header(rec, text, k)
+
+
 def run(rec):
     rec.rule = ('A: Accept headers = all 1..3-tuples over %d media-range atoms (11 ranges x q set) x 10 media types, '
                 'plus grammar-driven random headers (params, quoted params, q forms, OWS, duplicates, empty/invalid '
@@ -1197,11 +1210,7 @@ def run(rec):
     ]
     rng = rec.rng
     world = World()
-    # before anything is negotiated (nothing cached yet): an application that parses a few common values with the
-    # public parse_header() and fills in defaults in the dict it got back
-    for k, text in enumerate(['text/plain', 'application/json', '*/*', 'text/plain;a=1', 'text/*', 'application/json',
-                              'text/html; charset=utf-8', '', 'text/plain ', 'msgpack', 'text/plain;a="1"', 'image/png']):
-        check_parse_header(rec, text, k)
+    hostile_app_preamble(rec)
     exhaustive_negotiation(rec)
     exhaustive_histories(rec, world)
     rec.exhaustive = True
@@ -1250,6 +1259,7 @@ def run(rec):
 
 def replay(rec, w):
     wit = w['witness']
+    hostile_app_preamble(rec)
     if 'history' in wit:
         hw = wit['history']
         h = History(rec, World(), hw['init'], hw['default'], hw['probes'], public=True,
